@@ -954,4 +954,106 @@ theorem facts_ok :
        "(?i)\\[(?:\\\\)?c(?:[^\\w][^\\[\\]]*)?\\]", ""] := by
   refine ⟨rfl, rfl, rfl, rfl, rfl, rfl, rfl, rfl, rfl, rfl, rfl, rfl, rfl, rfl⟩
 
+/-- a member's JSON type as Go declares it (`uint8` counts as `int`: the model holds the number) -/
+def kindOf : JAtom → String
+  | .str _ => "string"
+  | .unmodelled => "string"
+  | .int _ => "int"
+  | .bool _ => "bool"
+
+/-- **The JSON documents have exactly the members the source declares, in that order, with those
+types**: the `json` struct tags of `model.Server`, `model.ServerPlayer`, `model.ServerObjective`,
+`model.ServerDetail` (`internal/rest/model/server.go`), read by reflection on every run, are these
+literal lists, and the model's documents (`ServerJson.members` …) carry exactly these names in this
+order with values of the declared kinds — a renamed, added, dropped or reordered member breaks this
+theorem.  Likewise the `form` tags of `api.ServerFilterForm` (the listing's parameters), and the Go
+field lists of `details.Info` / `Player` / `Objective` by which the case lines and the reference
+tables (`RestSpec.infoFieldNames` …) address the stored record. -/
+theorem facts_json_ok :
+    Facts.restServerJsonTags =
+      ["address", "ip", "port", "hostname", "hostname_plain", "hostname_html", "passworded", "gamename", "gamever",
+       "gametype", "gametype_slug", "mapname", "mapname_slug", "player_num", "player_max", "round_num", "round_max",
+       "time_round", "time_special", "score_swat", "score_sus", "vict_swat", "vict_sus", "bombs_defused",
+       "bombs_total", "coop_reports", "coop_weapons"] ∧
+    (∀ s : ServerJson, s.members.map (·.1) = Facts.restServerJsonTags) ∧
+    (∀ s : ServerJson, s.members.map (fun m => kindOf m.2) = Facts.restServerKinds) ∧
+    Facts.restServerPlayerJsonTags =
+      ["name", "ping", "score", "team", "vip", "coop_status", "coop_status_slug", "kills", "teamkills", "deaths",
+       "arrests", "arrested", "vip_escapes", "vip_captures", "vip_rescues", "vip_kills_valid", "vip_kills_invalid",
+       "rd_bombs_defused", "rd_crybaby", "sg_escapes", "sg_kills", "sg_crybaby"] ∧
+    (∀ p : PlayerJson, p.members.map (·.1) = Facts.restServerPlayerJsonTags) ∧
+    (∀ p : PlayerJson, p.members.map (fun m => kindOf m.2) =
+      Facts.restServerPlayerKinds.map fun k => if k = "uint8" then "int" else k) ∧
+    Facts.restServerObjectiveJsonTags = ["name", "status", "status_slug"] ∧
+    (∀ o : ObjectiveJson, o.members.map (·.1) = Facts.restServerObjectiveJsonTags) ∧
+    (∀ o : ObjectiveJson, o.members.map (fun m => kindOf m.2) = Facts.restServerObjectiveKinds) ∧
+    Facts.restServerDetailJsonTags = ["info", "players", "objectives"] ∧
+    detailMemberNames = Facts.restServerDetailJsonTags ∧ RestSpec.detailMembers = Facts.restServerDetailJsonTags ∧
+    Facts.restServerDetailKinds = ["struct", "slice", "slice"] ∧
+    RestSpec.serverWants.map (·.1) = Facts.restServerJsonTags ∧
+    RestSpec.playerWants.map (·.1) = Facts.restServerPlayerJsonTags ∧
+    RestSpec.objectiveWants.map (·.1) = Facts.restServerObjectiveJsonTags ∧
+    Facts.restFilterFormTags = ["gamevariant", "gamever", "gametype", "nopassworded", "nofull", "noempty"] ∧
+    Facts.restFilterFormKinds = ["string", "string", "string", "bool", "bool", "bool"] ∧
+    RestSpec.infoFieldNames = Facts.infoFieldNames ∧ RestSpec.infoFieldKinds = Facts.infoFieldKinds ∧
+    RestSpec.playerFieldNames = Facts.playerFieldNames ∧ RestSpec.playerFieldKinds = Facts.playerFieldKinds ∧
+    RestSpec.objectiveFieldNames = Facts.objectiveFieldNames ∧ RestSpec.objectiveFieldKinds = Facts.objectiveFieldKinds ∧
+    (∀ i : Info, (infoEntity i).map (·.1) = RestSpec.infoFieldNames) ∧
+    (∀ p : Player, (playerEntity p).map (·.1) = RestSpec.playerFieldNames) ∧
+    (∀ o : Objective, (objectiveEntity o).map (·.1) = RestSpec.objectiveFieldNames) ∧
+    Facts.restDsInfo = dsInfo := by
+  refine ⟨rfl, fun _ => rfl, ?_, rfl, fun _ => rfl, ?_, rfl, fun _ => rfl, ?_, rfl, rfl, rfl, rfl, rfl, rfl, rfl, rfl, rfl,
+    rfl, rfl, rfl, rfl, rfl, rfl, fun _ => rfl, fun _ => rfl, fun _ => rfl, rfl⟩
+  · intro s
+    cases h1 : s.gameTypeSlug <;> cases h2 : s.mapNameSlug <;> simp [ServerJson.members, kindOf, slugAtom, h1, h2, Facts.restServerKinds]
+  · intro p
+    cases h1 : p.coopStatusSlug <;> simp [PlayerJson.members, kindOf, slugAtom, h1, Facts.restServerPlayerKinds]
+  · intro o
+    cases h1 : o.statusSlug <;> simp [ObjectiveJson.members, kindOf, slugAtom, h1, Facts.restServerObjectiveKinds]
+
+/-- the integers `-2 … 8`, the sample of values whose `String()` the extractor records -/
+def enumSample : List Int := [-2, -1, 0, 1, 2, 3, 4, 5, 6, 7, 8]
+
+/-- **The `String()` methods as compiled**: for the values -2..8 the three methods of the source
+return what `teamString`, `coopStatusString`, `objectiveStatusString` compute (names inside the
+defined range, numerals outside on both sides). -/
+theorem facts_enum_ok :
+    Facts.restTeamStrings.map String.toList = enumSample.map teamString ∧
+    Facts.restCoopStatusStrings.map String.toList = enumSample.map coopStatusString ∧
+    Facts.restObjectiveStatusStrings.map String.toList = enumSample.map objectiveStatusString ∧
+    RestSpec.teamNames.all (fun p => teamString p.1 == p.2.toList) = true ∧
+    RestSpec.coopStatusNames.all (fun p => coopStatusString p.1 == p.2.toList) = true ∧
+    RestSpec.objectiveStatusNames.all (fun p => objectiveStatusString p.1 == p.2.toList) = true := by
+  decide
+
+set_option maxRecDepth 100000 in
+theorem slug_table_shape : Slug.unidecodeLatin1.length = 128 ∧
+    Slug.unidecodeLatin1.all (fun s => s.toList.all fun c => c.toNat < 128) = true := by decide
+
+set_option maxRecDepth 100000 in
+theorem slug_latin1 : (List.range 256).map (fun c => Slug.make ['x', Char.ofNat c, 'y']) =
+    Facts.restSlugLatin1.map (fun s => some s.toList) := by decide
+
+set_option maxRecDepth 100000 in
+theorem slug_probes : Facts.restSlugProbes.map (fun s => Slug.make s.toList) =
+    Facts.restSlugProbeResults.map (fun s => some s.toList) := by decide
+
+/-- **`slug.Make` as the REST model calls it, character by character**: for every code point `c`
+of Latin-1 the slug of the game type `x<c>y` computed by the real `NewServerFromDomain` (recorded on
+every run) is what `Slug.make` computes — this covers `enSub`/`defaultSub` (`&`, `@`, the quotes),
+`unidecode`'s Latin-1 table as far as it survives lower-casing and the replacement of
+non-authorized characters, and the handling of separators; likewise for the dashes U+2012..U+2015,
+U+2019 and two astral code points, and for whole strings (trimming of white space and of `-`/`_` at
+the ends, collapsing of runs, no length limit).  The table has 128 ASCII-only entries. -/
+theorem slug_facts_ok :
+    (List.range 256).map (fun c => Slug.make ['x', Char.ofNat c, 'y']) =
+      Facts.restSlugLatin1.map (fun s => some s.toList) ∧
+    ([0x2012, 0x2013, 0x2014, 0x2015, 0x2019, 0x10000, 0x1F600].map fun c => Slug.make ['x', Char.ofNat c, 'y']) =
+      Facts.restSlugSpecial.map (fun s => some s.toList) ∧
+    Facts.restSlugProbes.map (fun s => Slug.make s.toList) = Facts.restSlugProbeResults.map (fun s => some s.toList) ∧
+    Slug.unidecodeLatin1.length = 128 ∧
+    Slug.unidecodeLatin1.all (fun s => s.toList.all fun c => c.toNat < 128) = true ∧
+    Slug.make ['x', Char.ofNat 0x100, 'y'] = none ∧ Slug.make ['x', Char.ofNat 0xFFFD, 'y'] = none := by
+  refine ⟨slug_latin1, by decide, slug_probes, slug_table_shape.1, slug_table_shape.2, by decide, by decide⟩
+
 end Swat4.C17
